@@ -731,6 +731,9 @@ def c18_case(cid, base, args, damage, outs=(), stale=(), tags=()):
             "sexp": sexp.dump(x), "cmd": "cd <pkgdir> && shoot " + " ".join(args), "tags": [damage] + list(tags), "pcmd": base["cmd"]}
 
 
+# `shoot map` still recurses without bound on self-embedding structs (being repaired in the mapper series): switch on once it landed
+MAP_SELF_EMBED_REPAIRED = False
+
 TAGCASE_VALID = ["pascal", "camel", "lower", "upper"]
 TAGCASE_NEAR = TAGCASE_VALID + ["Camel", "CAMEL", "camel_", "cAmel", "", "kebab", " camel", "camel ", "Pascal", "snake", "UPPER", "lowercase"]
 WAY_VALID = ["toonly", "fromonly", "both", "->", "<-", "<->"]
@@ -899,6 +902,26 @@ def damage_cases(rng, quick=True):
         b["files"]["a.go"] = re.sub(r"\bClient\b", kw, b["files"]["a.go"])     # (not the Client in RestClient)
         add(b, ["rest", "-type=" + kw], "formatFail", tags=["interface named like a keyword"])
         add(b, ["rest", "-type=*"], "formatFail", tags=["interface named like a keyword"])
+
+    # ---- structs that embed a pointer to themselves / to each other (unbounded recursion in expandIfStruct: `new` repaired in
+    # /repo 0c9404e; value embedding is a compile error, i.e. ordinary unpredicted damage). A run that does not terminate is a
+    # violation of "terminates with exit code 0, 1 or 2" (exit -9 after the runner's timeout), never an infrastructure error ----
+    selfsrc = ("package cs\n\ntype Node struct {\n\t*Node\n\tval int\n}\n\ntype A struct {\n\t*B\n\tx int\n}\n\n"
+               "type B struct {\n\t*A\n\ty int\n}\n\ntype Tree struct {\n\tLeft, Right *Tree\n\t*Meta\n}\n\ntype Meta struct {\n\t*Tree\n\tname string\n}\n")
+    for fls in ([], ["-getset"], ["-json", "-getset"], ["-opt"], ["-opt", "-short", "-getset", "-json"], ["-exp", "-json", "-tagcase=upper"]):
+        for selx in (["-type=Node"], ["-type=A,B"], ["-type=*"], ["-file=a.go", "-sep"]):
+            b = {"files": {"a.go": selfsrc}, "cwd": ".", "cmd": "new", "flags": [], "good": ["Node"]}
+            add(b, ["new"] + fls + selx, "none", outs=["x"], tags=["self/mutually embedding structs"])
+    if MAP_SELF_EMBED_REPAIRED:
+        for side in ("src", "dest", "both"):
+            b = base_map()
+            rec = "type Node struct {\n\t*Node\n\tVal int\n}\n\ntype A struct {\n\t*B\n\tX int\n}\n\ntype B struct {\n\t*A\n\tY int\n}\n"
+            flat = "type Node struct {\n\tVal int\n}\n\ntype A struct {\n\tX int\n}\n\ntype B struct {\n\tY int\n}\n"
+            b["files"]["src/b.go"] += "\n" + (rec if side in ("src", "both") else flat)
+            b["files"]["dest/d.go"] += "\n" + (rec if side in ("dest", "both") else flat)
+            for selx in (["-type=Node"], ["-type=A,B"], ["-type=*"]):
+                cases.append(c18_case("d%d" % n[0], b, ["map", "-path=../dest"] + selx, "unpredicted", tags=["self/mutually embedding structs (map, %s)" % side]))
+                n[0] += 1
 
     # ---- flag VALUES near the valid ones, together with the flags that make the value matter ----
     for v in TAGCASE_NEAR:
